@@ -18,6 +18,7 @@ from mc.report import Recorder
 
 PID = "C14"
 LEVEL = "exploration"
+REDUCED = {'quick': 'every third target set of the 6-column palette, every second small target for triples'}
 RULE = ("cases = (query, target set, n_score_bins, reverse_complement) enumerated completely over the palette / shape grid; every "
         "(query, target) pair is compared: score, (offset, overlap) in the attaining set, p-value; non-trivial = pairs whose "
         "reference p-value is < 1; separately counted: pairs with null mass in similarity bin 0 and pairs with best score 0")
